@@ -3,6 +3,7 @@
    D23); proofs in Proofs/ExecLive.v, ExecMeasure.v. *)
 From Coq Require Import List Bool Arith.
 From EL Require Import Model.Exec Model.ExecInv Proofs.ExecLiveCor Proofs.ExecMeasure.
+From EL Require Import Model.StepExec Model.DepExec Model.LiveSpec Proofs.DepSafe Proofs.DepLiveCor.
 Import ListNotations.
 
 (* never deadlocks: for every number of workers >= 1, every history of submit / cancel / result /
@@ -31,3 +32,18 @@ Example C05_closed_rejects_submit :
   let s := fst (run c (repeat 0 200) (init 2 [OSubmit 1; OShutdown true false; OShutdown true true; OSubmit 2; OShutdown false true])) in
   outs s = [XOk; XOk; XOk; XRaise; XOk] /\ main s = MEnd.
 Proof. vm_compute. split; reflexivity. Qed.
+
+(* the dependency resolver in front of a block-allocation executor never deadlocks either: a state
+   in which nothing can move is one in which the client has finished its whole program and the
+   resolver thread has ended *)
+Theorem C05_resolver_no_deadlock :
+  forall c n prog d k,
+    dinner c = IBlock k -> 1 <= k -> (forall i, xraises (dx c) i = false) ->
+    wf_prog n prog -> wf_deps c n -> dreach c (dinit n prog) d ->
+    denabled c d = [] ->
+    main (dbase d) = MEnd /\ rp d = RDone.
+Proof.
+  intros c n prog d k H1 H2 H3 H4 H5 H6 H7.
+  pose proof (dep_rest c n prog d k H1 H2 H3 H4 H5 H6 H7) as H. split; [exact (proj1 H) | exact (proj2 (proj2 (proj2 (proj2 H))))].
+Qed.
+Print Assumptions C05_resolver_no_deadlock.
